@@ -2,9 +2,11 @@
   OdfModel.EasyList — model of odf/easyliststyle.py (property C20).
 
   `styleFromList(styleName, specArray, spacing, showAllLevels)`, statement by statement:
-    * `cssLengthPattern.search(spacing)` with `([^a-z]+)\s*([a-z]+)?`  = `cssSplit`: skip unit characters, group 1 is
-      the longest following run of non-unit characters (it swallows any white space, so `\s*` matches nothing), group 2 /
-      `cssLengthUnits` the run of unit characters after it ("" when absent: `m.lastindex != 2` leaves the initial "").
+    * `cssLengthPattern.search(spacing)` with `(G1)\s*([U]+)?` = `cssSplit`: the leftmost position at which the number
+      regex G1 matches; group 1 is the LONGEST match of G1 there (for the regex in the source — all quantifiers greedy, the
+      two alternatives start with different characters, everything after the digits optional — Python's first match is
+      the longest one; this identification is tied by correspondence); then white space is skipped and group 2 /
+      `cssLengthUnits` is the run of unit characters, lower-cased (`m.group(2).lower()`; "" when absent).
     * `cssLengthNum = float(m.group(1))`, `str(cssLengthNum * (i+1))` and `str(cssLengthNum)` are NOT modelled: Python's
       float parsing, multiplication and repr are a PARAMETER (`FloatOracle`) — checked by correspondence only.
     * the `while` loop = `levelsFrom`; per specification `mkLevel`:
@@ -30,7 +32,7 @@ deriving DecidableEq, Repr
 
 /-- one of the numbering format characters (`1IiAa` in the pinned tree) -/
 def isFmt (c : Cp) : Bool := inRanges c Generated.EasyListRe.fmtRanges
-/-- a unit character (`a-z`) -/
+/-- a unit character (`a-zA-Z`) -/
 def isUnit (c : Cp) : Bool := inRanges c Generated.EasyListRe.unitRanges
 
 /-- `numFormatPattern.search(spec)`: (text before, format character, text after) of the first format character -/
@@ -39,13 +41,36 @@ def findFmt (spec : Str) : Option (Str × Cp × Str) :=
   | [] => none
   | c :: suf => some (spec.takeWhile (fun c => !isFmt c), c, suf)
 
-/-- `cssLengthPattern.search(spacing)`: (group 1, units) -/
+def isSpace (c : Cp) : Bool := inRanges c Generated.EasyListRe.spaceRanges
+
+/-- length of the longest prefix of `s` that is in `L(r)` -/
+def longestPrefix : RE → Str → Option Nat
+  | r, [] => if nullable r then some 0 else none
+  | r, c :: t =>
+    match longestPrefix (deriv c r) t with
+    | some n => some (n + 1)
+    | none => if nullable r then some 0 else none
+
+/-- `re.search` for a regex after which everything is optional: leftmost start, longest match there;
+    result = (text before, the match, text after) -/
+def searchLongest (r : RE) : Str → Option (Str × Str × Str)
+  | [] => if nullable r then some ([], [], []) else none
+  | c :: t =>
+    match longestPrefix r (c :: t) with
+    | some n => some ([], (c :: t).take n, (c :: t).drop n)
+    | none =>
+      match searchLongest r t with
+      | some (pre, g, post) => some (c :: pre, g, post)
+      | none => none
+
+/-- `m.group(2).lower()` / `m.group(2)` -/
+def unitCase (u : Str) : Str := if Generated.EasyListRe.lowerUnit then Attr.lower u else u
+
+/-- `cssLengthPattern.search(spacing)`: (group 1, cssLengthUnits) -/
 def cssSplit (spacing : Str) : Option (Str × Str) :=
-  match spacing.dropWhile isUnit with
-  | [] => none
-  | c :: r =>
-    let rest := c :: r
-    some (rest.takeWhile (fun c => !isUnit c), (rest.dropWhile (fun c => !isUnit c)).takeWhile isUnit)
+  match searchLongest Generated.EasyListRe.numRE spacing with
+  | none => none
+  | some (_, g, post) => some (g, unitCase ((post.dropWhile isSpace).takeWhile isUnit))
 
 /-- what Python's `float`, `*` and `str` do with group 1: `none` = ValueError, else
     (`str(cssLengthNum)`, `k ↦ str(cssLengthNum * k)`); group 1 `none` = the pattern did not match (`cssLengthNum = 0`) -/
